@@ -51,6 +51,8 @@ const (
 	fmCleartextPassword      // known user, password itself instead of its digest
 	fmOnlineUserWrongDigest  // the name of an operator who is logged in right now, wrong digest
 	fmOnlineUserNoPassword   // ... and no password at all
+	fmEmptyPasswordString    // known user, "Password": ""
+	fmDigestPrefix           // known user, the first half (or the first character) of the right digest
 	fmKinds
 )
 
@@ -235,6 +237,11 @@ func (st *c06State) firstMessage(kind int, user, password string) ([]byte, bool)
 	case fmOnlineUserNoPassword:
 		on := st.w.Operators[0].Name
 		v = world.MakePkg(world.EvInit, world.InitOAuth, on, map[string]any{"User": on})
+	case fmEmptyPasswordString:
+		v = auth(map[string]any{"User": user, "Password": ""})
+	case fmDigestPrefix:
+		d := digest(password)
+		v = auth(map[string]any{"User": user, "Password": d[:[]int{1, 32, 63}[len(user)%3]]})
 	}
 	b, _ := json.Marshal(v)
 	return b, true
@@ -308,7 +315,7 @@ func (st *c06State) digest() string {
 		parts = append(parts, "E:"+e.Endpoint)
 	}
 	for _, a := range w.TS.Agents.Agents {
-		parts = append(parts, fmt.Sprintf("A:%s:%v:%d:%d", a.NameID, a.Active, len(a.JobQueue), len(a.Tasks)))
+		parts = append(parts, fmt.Sprintf("A:%s:%v:%d:%d", a.NameID, a.Active, len(a.JobQueue), len(OutstandingIDs(a))))
 	}
 	if w.TS.Service != nil {
 		for _, a := range w.TS.Service.Agents {
